@@ -116,7 +116,7 @@ theorem evalStep_plain {env : Env} {rec : Rec} {scope : List NodeId} {s : NodeId
   unfold evalStep
   rw [hn]
   obtain ⟨evd, hds⟩ := kwDependentSchemas_none (sub := rec (scope ++ [s])) hd P.dependentSchemas j
-  simp only [hd, P.ref, kwRef, inPlace, kwDynamicRef, P.dynamicRef, kwAllOf, P.allOf, kwAnyOf, P.anyOf, kwOneOf, P.oneOf,
+  simp only [hd, show vocab Draft.d2020 n = n from rfl, P.ref, kwRef, inPlace, kwDynamicRef, P.dynamicRef, kwAllOf, P.allOf, kwAnyOf, P.anyOf, kwOneOf, P.oneOf,
     kwIf, P.if_, kwContains_none P.contains, kwPropertyNames_none P.propertyNames, hds,
     kwUnevaluatedItems_none P.unevaluatedItems, kwUnevaluatedProps_none P.unevaluatedProperties]
   simp only [asserts]
